@@ -116,6 +116,7 @@ type Case struct {
 	Steps []Step                 `json:"steps"`
 	Seed  int64                  `json:"seed,omitempty"` // math/rand seed (skiplist levels)
 	Extra map[string]interface{} `json:"extra,omitempty"`
+	Conc  *ConcProg              `json:"conc,omitempty"`
 }
 
 func (c Case) JSON() string {
